@@ -23,6 +23,12 @@
 //   - gauges are read through the real path: the harness' Statser hands RunMetrics a flush signal,
 //     RunMetrics calls scheduleEmit (fire and forget, so it is retried until the owner loop takes it),
 //     emit() calls Gauge on the harness' Statser inside the owner loop;
+//   - overlap: op `hold` closes a gate at the top of the scripted provider's Instance(): the single
+//     dispatcher goroutine blocks in its next provider call, so from then on nothing is answered while
+//     the owner loop keeps serving ticks, reads and emits; submissions are sent from helper goroutines
+//     (they block on the unbuffered IpSink until the dispatcher is back).  `release` installs its table,
+//     opens the gate and waits for one answer per outstanding lookup.  Calls are recorded when they pass
+//     the gate, so what a step reports does not depend on when the call was entered;
 //   - quiescence: the number of answers a step must produce is predicted by a small tracker in this file
 //     (used for waiting and for steering the generator only, never for a verdict).
 package main
@@ -83,7 +89,7 @@ type pair struct {
 }
 
 type op struct {
-	kind  string // sub peek age tick
+	kind  string // sub peek age tick hold release
 	pairs []pair
 	src   string
 	d     int
@@ -146,7 +152,9 @@ func parseCase(line string) (*tcase, bool) {
 			continue
 		}
 		switch {
-		case it[0] == "sub" || it[0] == "tick":
+		case it[0] == "hold" && len(it) == 1:
+			c.ops = append(c.ops, op{kind: "hold"})
+		case it[0] == "sub" || it[0] == "tick" || it[0] == "release":
 			ps, ok := parsePairs(it[1:])
 			if !ok {
 				return nil, false
@@ -163,6 +171,18 @@ func parseCase(line string) (*tcase, bool) {
 		default:
 			return nil, false
 		}
+	}
+	held := false
+	for _, o := range c.ops {
+		switch o.kind {
+		case "hold":
+			held = true
+		case "release":
+			held = false
+		}
+	}
+	if held { // a case that ends held gets a final release with an empty table (as in the model driver)
+		c.ops = append(c.ops, op{kind: "release"})
 	}
 	return c, true
 }
@@ -191,6 +211,8 @@ type tracker struct {
 	ttl, neg, idle int
 	now            int
 	es             map[string]*ent
+	held           bool
+	heldQ          []string // lookups outstanding while the provider is held
 }
 
 func newTracker(ttl, neg, idle int) *tracker {
@@ -246,6 +268,25 @@ type provider struct {
 	calls  int
 	bad    string
 	multis int
+	gate   chan struct{} // non-nil = held: calls block until it is closed
+}
+
+func (p *provider) hold() {
+	p.mu.Lock()
+	if p.gate == nil {
+		p.gate = make(chan struct{})
+	}
+	p.mu.Unlock()
+}
+
+func (p *provider) release(t map[string]outcome) {
+	p.mu.Lock()
+	p.table = t
+	if p.gate != nil {
+		close(p.gate)
+		p.gate = nil
+	}
+	p.mu.Unlock()
 }
 
 func (p *provider) Name() string           { return "scripted" }
@@ -257,6 +298,16 @@ func mkInstance(n int) *gostatsd.Instance {
 }
 
 func (p *provider) Instance(ctx context.Context, ips ...gostatsd.Source) (map[gostatsd.Source]*gostatsd.Instance, error) {
+	p.mu.Lock()
+	gate := p.gate
+	p.mu.Unlock()
+	if gate != nil {
+		select {
+		case <-gate:
+		case <-ctx.Done():
+			return nil, ctx.Err()
+		}
+	}
 	p.mu.Lock()
 	defer p.mu.Unlock()
 	p.calls++
@@ -661,7 +712,8 @@ func runCase(line string) (out string) {
 	r := &runner{c: c, ctx: ctx, ccp: ccp, prov: prov, gst: gst, tickC: tickC, b0: b0, ansC: ansC}
 	tr := newTracker(c.ttl, c.neg, c.idle)
 	items := []string{}
-	for _, o := range c.ops {
+	shorts := 0
+	for k, o := range c.ops {
 		select {
 		case p := <-panics:
 			return "PANIC " + p
@@ -670,7 +722,42 @@ func runCase(line string) (out string) {
 		var res string
 		short := false
 		switch o.kind {
+		case "hold":
+			prov.hold()
+			tr.held = true
+			res = "ok"
+		case "release":
+			tbl := tableOf(o.pairs)
+			prov.release(tbl)
+			tr.held = false
+			got, sh := r.collect(len(tr.heldQ))
+			short = sh
+			for _, s := range tr.heldQ {
+				o2, ok := tbl[s]
+				if !ok {
+					o2 = outcome{kind: 'm'}
+				}
+				tr.answer(s, o2)
+			}
+			tr.heldQ = nil
+			res = r.lookupReport(got)
 		case "sub":
+			if tr.held {
+				// the dispatcher is (or will be) blocked in the provider: the sends complete after the release
+				for _, p := range o.pairs {
+					src := gostatsd.Source(p.src)
+					guard(func() {
+						select {
+						case ccp.IpSink() <- src:
+						case <-ctx.Done():
+						}
+					})
+					tr.heldQ = append(tr.heldQ, p.src)
+				}
+				got, _ := r.collect(0)
+				res = r.lookupReport(got)
+				break
+			}
 			tbl := tableOf(o.pairs)
 			prov.setTable(tbl)
 			tm := time.NewTimer(hangTimeout)
@@ -712,7 +799,9 @@ func runCase(line string) (out string) {
 			res = "ok"
 		case "tick":
 			tbl := tableOf(o.pairs)
-			prov.setTable(tbl)
+			if !tr.held {
+				prov.setTable(tbl)
+			}
 			r.snap()
 			tm := time.NewTimer(hangTimeout)
 			select {
@@ -723,6 +812,12 @@ func runCase(line string) (out string) {
 			tm.Stop()
 			r.snapshot() // fence: doRefresh has returned
 			_, due := tr.tick()
+			if tr.held {
+				tr.heldQ = append(tr.heldQ, due...)
+				got, _ := r.collect(0)
+				res = r.lookupReport(got)
+				break
+			}
 			got, sh := r.collect(len(due))
 			short = sh
 			for _, s := range due {
@@ -736,7 +831,12 @@ func runCase(line string) (out string) {
 		}
 		items = append(items, res+" "+r.gauges())
 		if short {
-			break // answers are missing: the rest of the history would only repeat the finding slowly
+			shorts++
+			if shorts >= 2 && k+1 < len(c.ops) {
+				// answers keep missing: the rest of the history would only repeat the finding slowly
+				items = append(items, "cut")
+				break
+			}
 		}
 	}
 	// anything still on its way (only possible if the code asked the provider for more than the
@@ -795,6 +895,12 @@ func genCase(r *hx.Rng, tier string, st *hx.Stats) string {
 	idle := hx.Pick(r, []int{0, 1, 2, 2, 3, 3, 4, 6, 9})
 	max := r.Range(1, 4)
 	nsrc := r.Range(1, 5)
+	overlap := r.Chance(1, 4)   // provider calls held across ticks / reads / submissions
+	scenario := r.Chance(1, 12) // starts with: refresh in flight, entry evicted meanwhile, re-inserted, used, expired again
+	if scenario {
+		ttl = r.Intn(3)
+		idle = ttl + 1 + r.Intn(2)
+	}
 	srcs := make([]string, nsrc)
 	for i := range srcs {
 		srcs[i] = "s" + strconv.Itoa(i)
@@ -807,14 +913,41 @@ func genCase(r *hx.Rng, tier string, st *hx.Stats) string {
 	items := []string{fmt.Sprintf("cfg %d %d %d %d", ttl, neg, idle, max)}
 	nontrivial := false
 	lookups := 0
+	heldOps := 0
+	evictedHeld := map[string]bool{} // evicted while a lookup of it was outstanding (this hold)
+	reinserted := map[string]bool{}  // ... and re-inserted by the late answer, not yet refreshed since
 	emit := func(s string) { items = append(items, s) }
-	doTick := func() {
+	applyAnswer := func(what, src string, o outcome) {
+		_, existed := tr.es[src]
+		kept, flipped := tr.answer(src, o)
+		if kept {
+			st.Hit(what + ":failed-keeps-instance")
+		}
+		if flipped {
+			st.Hit(what + ":negative-becomes-positive")
+		}
+		st.Hit("outcome:" + string(o.kind))
+		if existed {
+			delete(reinserted, src)
+		}
+		lookups++
+	}
+	genTable := func() []pair {
 		ps := []pair{}
 		for _, s := range srcs {
 			if r.Chance(5, 6) {
 				ps = append(ps, pair{s, genOutcome(r)})
 			}
 		}
+		return ps
+	}
+	lookupOf := func(tbl map[string]outcome, s string) outcome {
+		if o, ok := tbl[s]; ok {
+			return o
+		}
+		return outcome{kind: 'm'}
+	}
+	doTickWith := func(ps []pair) {
 		tbl := tableOf(ps)
 		// boundary bookkeeping before the tick
 		for _, e := range tr.es {
@@ -845,27 +978,134 @@ func genCase(r *hx.Rng, tier string, st *hx.Stats) string {
 		if len(ev) == 0 && len(due) == 0 {
 			st.Hit("tick:nothing")
 		}
-		for _, s := range due {
-			o, ok := tbl[s]
-			if !ok {
-				o = outcome{kind: 'm'}
+		for _, s := range ev {
+			delete(reinserted, s)
+		}
+		if tr.held {
+			for _, s := range ev {
+				for _, q := range tr.heldQ {
+					if q == s {
+						evictedHeld[s] = true
+						st.Hit("held:evicted-while-its-lookup-is-outstanding")
+						break
+					}
+				}
 			}
-			kept, flipped := tr.answer(s, o)
-			if kept {
-				st.Hit("refresh:failed-keeps-instance")
+			for _, s := range due {
+				dup := false
+				for _, q := range tr.heldQ {
+					if q == s {
+						dup = true
+					}
+				}
+				if dup {
+					st.Hit("held:expired-entry-queued-again")
+				} else {
+					st.Hit("held:tick-requeues")
+				}
 			}
-			if flipped {
-				st.Hit("refresh:negative-becomes-positive")
+			tr.heldQ = append(tr.heldQ, due...)
+			st.Hit("op:tick-held")
+		} else {
+			for _, s := range due {
+				if reinserted[s] {
+					st.Hit("held:requery-after-late-answer-reinserted-evicted-entry")
+				}
+				applyAnswer("refresh", s, lookupOf(tbl, s))
 			}
-			st.Hit("outcome:" + string(o.kind))
-			lookups++
+			st.Hit("op:tick")
 		}
 		emit(strings.TrimSpace("tick " + pairsString(ps)))
-		st.Hit("op:tick")
+	}
+	doTick := func() { doTickWith(genTable()) }
+	doSub := func(ps []pair) {
+		for _, p := range ps {
+			if tr.held {
+				tr.heldQ = append(tr.heldQ, p.src)
+				st.Hit("held:submission-queued")
+			} else {
+				applyAnswer("resubmit", p.src, p.out)
+			}
+		}
+		emit("sub " + pairsString(ps))
+		st.Hit("op:sub")
+	}
+	doPeek := func(s string) {
+		if e := tr.es[s]; e != nil {
+			e.la = tr.now
+			if e.pos {
+				st.Hit("peek:positive")
+			} else {
+				st.Hit("peek:negative")
+			}
+		} else {
+			st.Hit("peek:miss")
+		}
+		if tr.held {
+			st.Hit("held:peek")
+		}
+		emit("peek " + s)
+		st.Hit("op:peek")
+	}
+	doAge := func(d int) {
+		tr.now += d
+		emit(fmt.Sprintf("age %d", d))
+		st.Hit("op:age")
+	}
+	doHold := func() {
+		tr.held = true
+		heldOps = 0
+		emit("hold")
+		st.Hit("op:hold")
+	}
+	doRelease := func(ps []pair) {
+		tbl := tableOf(ps)
+		if len(tr.heldQ) > 0 {
+			nontrivial = true
+		}
+		for _, s := range tr.heldQ {
+			if _, in := tr.es[s]; !in && evictedHeld[s] {
+				st.Hit("held:late-answer-reinserts-evicted-entry")
+				reinserted[s] = true
+			}
+			applyAnswer("release", s, lookupOf(tbl, s))
+		}
+		tr.heldQ = nil
+		tr.held = false
+		evictedHeld = map[string]bool{}
+		emit(strings.TrimSpace("release " + pairsString(ps)))
+		st.Hit("op:release")
+	}
+	if scenario {
+		x := hx.Pick(r, srcs)
+		doSub([]pair{{x, outcome{kind: 'v', n: 1}}})
+		doAge(ttl + 1) // past the TTL, not yet idle for longer than idle
+		doHold()
+		doTickWith(nil) // the refresh goes out and is held
+		doAge(idle - ttl + r.Intn(2))
+		doTickWith(nil) // idle-evicted while its refresh is in flight
+		doRelease([]pair{{x, outcome{kind: hx.Pick(r, []byte{'v', 'v', 'f'}), n: 2}}})
+		doPeek(x)
+		doAge(ttl + 1)
+		if r.Bool() {
+			doPeek(x)
+		}
+		doTickWith([]pair{{x, genOutcome(r)}})
+		st.Hit("scenario:evicted-during-refresh")
 	}
 	for len(items)-1 < nops {
+		if tr.held {
+			heldOps++
+			if heldOps > 6 || r.Chance(1, 4) {
+				doRelease(genTable())
+				continue
+			}
+		} else if overlap && r.Chance(1, 6) {
+			doHold()
+			continue
+		}
 		switch x := r.Intn(100); {
-		case x < 35: // submissions
+		case x < 35 && !(tr.held && x < 20): // submissions (fewer while held)
 			k := r.Range(1, 3)
 			if r.Chance(1, 4) {
 				k = r.Range(3, 7)
@@ -890,34 +1130,10 @@ func genCase(r *hx.Rng, tier string, st *hx.Stats) string {
 			if k > max {
 				st.Hit("sub:more-than-one-batch")
 			}
-			for _, p := range ps {
-				kept, flipped := tr.answer(p.src, p.out)
-				if kept {
-					st.Hit("resubmit:failed-keeps-instance")
-				}
-				if flipped {
-					st.Hit("resubmit:negative-becomes-positive")
-				}
-				st.Hit("outcome:" + string(p.out.kind))
-				lookups++
-			}
-			emit("sub " + pairsString(ps))
-			st.Hit("op:sub")
+			doSub(ps)
 		case x < 55: // reads
-			s := hx.Pick(r, srcs)
-			if e := tr.es[s]; e != nil {
-				e.la = tr.now
-				if e.pos {
-					st.Hit("peek:positive")
-				} else {
-					st.Hit("peek:negative")
-				}
-			} else {
-				st.Hit("peek:miss")
-			}
-			emit("peek " + s)
-			st.Hit("op:peek")
-		case x < 85: // time passes, usually followed by a tick
+			doPeek(hx.Pick(r, srcs))
+		case x < 88: // time passes, usually followed by a tick
 			d := r.Intn(4)
 			if len(tr.es) > 0 && r.Chance(2, 3) {
 				// aim at a boundary of some entry
@@ -937,9 +1153,7 @@ func genCase(r *hx.Rng, tier string, st *hx.Stats) string {
 					d = target
 				}
 			}
-			tr.now += d
-			emit(fmt.Sprintf("age %d", d))
-			st.Hit("op:age")
+			doAge(d)
 			if r.Chance(4, 5) && len(items)-1 < nops {
 				doTick()
 			}
@@ -947,10 +1161,16 @@ func genCase(r *hx.Rng, tier string, st *hx.Stats) string {
 			doTick()
 		}
 	}
+	if tr.held && r.Chance(3, 4) { // otherwise the case ends held: implicit release with an empty table
+		doRelease(genTable())
+	}
 	line := strings.Join(items, " ; ")
 	st.Case(line, nontrivial && lookups >= 2)
 	st.Hit(fmt.Sprintf("maxbatch=%d", max))
 	st.Hit(fmt.Sprintf("ops<=%d", bucketOf(len(items)-1)))
+	if strings.Contains(line, "; hold") {
+		st.Hit("case:with-held-provider-calls")
+	}
 	return line
 }
 
@@ -969,8 +1189,10 @@ func gen(args []string) {
 	tier := hx.Arg(args, "--tier", "quick")
 	st := hx.NewStats("random histories of 5..60 quiescent steps (sub with duplicates / peek / age / tick) over 1..5 sources, " +
 		"TTL, negative TTL and idle period 0..9 units, batch limit 1..4, provider outcomes instance / missing / nil / error / " +
-		"error-with-partial-map, ages aimed at the idle and TTL boundaries; non-trivial = at least one tick that evicts or " +
-		"re-queries and at least two lookups; distinct by the case text")
+		"error-with-partial-map, ages aimed at the idle and TTL boundaries; in about a third of the histories provider calls are " +
+		"held (hold ... release) across ticks, reads and submissions, 1/12 start with the scenario refresh-in-flight / evicted / " +
+		"re-inserted / used / expired again; non-trivial = at least one tick that evicts or re-queries (or a release with " +
+		"outstanding lookups) and at least two lookups; distinct by the case text")
 	for i := 0; i < n; i++ {
 		fmt.Fprintln(hx.Out, genCase(r.Fork(), tier, st))
 	}
